@@ -21,6 +21,9 @@ func main() {
 	case "run":
 		os.Exit(cmdRun(os.Args[2:]))
 	case "check":
+		if len(os.Args) > 2 && os.Args[2] == "xsolver" {
+			os.Exit(cmdXSolver())
+		}
 		os.Exit(cmdCheck(os.Args[2:]))
 	default:
 		fmt.Fprintln(os.Stderr, "unknown command", os.Args[1])
@@ -106,5 +109,60 @@ func cmdRun(args []string) int {
 	if len(rep.Unsupported) > 0 || len(rep.Unknowns) > 0 || len(rep.UnwindFail) > 0 {
 		return 2
 	}
+	return 0
+}
+
+// cmdXSolver runs a fixed set of harnesses on every available back end and compares the
+// verdict summaries (paths, obligations, discharged, violations, cover points): a disagreement
+// means a solver (or the encoding's use of it) is wrong.
+func cmdXSolver() int {
+	w, err := loadWorld([]string{pkgWitness, pkgLitmus})
+	if err != nil {
+		fmt.Fprintln(os.Stderr, "load:", err)
+		return 2
+	}
+	type job struct {
+		h      string
+		props  []string
+		params map[string]int
+	}
+	jobs := []job{
+		{pkgWitness + ".VerifUpdateStep", []string{"C01", "C02", "C03", "C04", "C08", "C09", "C12", "C20"}, p("logs", 1, "signers", 2, "maxproof", 2, "replay", 0)},
+		{pkgWitness + ".VerifUpdateStep", []string{"C01", "C03", "C09"}, p("logs", 2, "signers", 1, "maxproof", 1, "store", 1, "replay", 0)},
+		{pkgWitness + ".VerifVCSound", nil, p("n", 8, "vc_inline", 1)},
+		{pkgWitness + ".VerifVCAgree", nil, p("n", 8, "vc_inline", 1)},
+		{pkgWitness + ".VerifVCComplete", nil, p("n", 8, "vc_inline", 1)},
+		{pkgWitness + ".VerifFaults", []string{"C07", "C03"}, p("logs", 1, "signers", 1, "maxproof", 1, "store", 1)},
+		{pkgLitmus + ".Maps", nil, nil},
+		{pkgLitmus + ".BytesAlg", nil, nil},
+		{pkgLitmus + ".Loop", nil, nil},
+	}
+	bad := 0
+	for _, j := range jobs {
+		var ref string
+		for _, sk := range []sym.SolverKind{sym.Z3, sym.Z3New, sym.CVC5} {
+			props := map[string]bool{}
+			for _, pr := range j.props {
+				props[pr] = true
+			}
+			rep, err := sym.Run(w, &sym.RunConfig{Harness: j.h, Props: props, Params: j.params, Solver: sk, TimeoutMs: 60000, Quiet: true})
+			if err != nil {
+				fmt.Println("run:", err)
+				return 2
+			}
+			sum := fmt.Sprintf("paths=%d ok=%d infeasible=%d panics=%d obligations=%d discharged=%d violations=%d unknown=%d covers=%v", rep.Paths, rep.PathsOK, rep.Infeasible, rep.Panics, rep.Obligations, rep.Discharged, len(rep.Violations), len(rep.Unknowns), rep.CoverIDs)
+			fmt.Printf("%-28s %-7s %s (%.1fs)\n", short(j.h), sk, sum, rep.WallSec)
+			if ref == "" {
+				ref = sum
+			} else if sum != ref {
+				fmt.Printf("DISAGREEMENT on %s between z3 and %s\n", j.h, sk)
+				bad++
+			}
+		}
+	}
+	if bad > 0 {
+		return 2
+	}
+	fmt.Println("xsolver: z3 4.8.12, z3 5.1.0 and cvc5 1.0 agree on every summary")
 	return 0
 }
